@@ -14,6 +14,8 @@ CONSTANTS
   BitmapExcludeExact = TRUE
   ProvidersAgree = TRUE
   DeleteDropsPacked = TRUE
+  CgHonoursShallow = TRUE
+  Focus = "all"
 INVARIANT TypeOK
 INVARIANT Transparent
 INVARIANT Exact
